@@ -259,6 +259,34 @@ def check_fault(case: typing.Any, ctx: Ctx) -> Info:
     d = _write(ctx, texts)
     try:
         root = os.path.join(d, ROOT)
+        if case.get("earlier_revision"):
+            # the same files held other text a moment ago - the same lines in another order, hence the same size - and were read then;
+            # the edit kept the timestamps (cp -p, rsync -t, a coarse clock).  What is reported is about the text that is there now.
+            import pydsdl as _p
+
+            for fn, text in texts.items():
+                path = os.path.join(root, fn)
+                stamp = os.stat(path)
+                eol = "\r\n" if "\r\n" in text else "\n"
+                lines_ = text.split(eol)
+                k = case["earlier_revision"] % max(1, len(lines_))
+                older = eol.join(lines_[k:] + lines_[:k])
+                if len(older.encode()) == len(text.encode()) and older != text:
+                    with open(path, "w", newline="") as f:
+                        f.write(older)
+                    os.utime(path, ns=(stamp.st_atime_ns, stamp.st_mtime_ns))
+            try:
+                _p.read_namespace(root, [])
+            except _p.InvalidDefinitionError:
+                pass
+            except Exception:  # pylint: disable=broad-except
+                pass  # (whatever the scrambled revision does is not this case's business)
+            for fn, text in texts.items():
+                path = os.path.join(root, fn)
+                stamp = os.stat(path)
+                with open(path, "w", newline="") as f:
+                    f.write(text)
+                os.utime(path, ns=(stamp.st_atime_ns, stamp.st_mtime_ns))
         if case["api"] == "namespace":
             res, ex = guarded(pydsdl.read_namespace, root, [], allowed=(pydsdl.InvalidDefinitionError,), what="read_namespace")
         else:
@@ -377,6 +405,7 @@ def _fault_cases() -> st.SearchStrategy:
                 "files": st.lists(_file_spec(), min_size=depth + 1, max_size=depth + 1),
                 "fault": st.fixed_dictionaries({"file": st.integers(0, 3), "pos": st.integers(0, 20), "cat": cats}),
                 "api": st.sampled_from(["namespace", "files"]),
+                "earlier_revision": st.sampled_from([0, 0, 0, 1, 2, 5]),
             }
         )
     )
